@@ -459,10 +459,88 @@ def _positive_control(region):
         raise AnalysisError('C13.R1', 'positive-control', 'FX did not report a pop() on a parameter\'s meta')
 
 
+def _descriptor_store_is_copy(m, ci, attr):
+    """(True/False/None, where): does assigning `obj.<attr> = v` on class ci store v itself (False) or a copy of it (True)?
+    None when the attribute is a plain instance attribute (stores v itself) — reported as False by the caller."""
+    r = m.lookup(ci, attr)
+    kind = m.descriptor_kind(ci, attr)
+    if kind is None:
+        return None, None
+    dci = m.cls(kind)
+    if dci is None:
+        return None, None
+    f = m.method(dci, '__set__')
+    if f is None:
+        return None, None
+    names = [a.arg for a in f.node.args.args]
+    vname = names[2] if len(names) > 2 else None
+    last = None
+    # stores into the instance dictionary, in program order; a repository `super().__set__` is followed
+    def stores(fn_info, seen=()):
+        out = []
+        for st in ast.walk(fn_info.node):
+            if isinstance(st, ast.Assign) and isinstance(st.targets[0], ast.Subscript) and '__dict__' in norm(st.targets[0].value):
+                out.append((st.lineno, st.value, fn_info))
+            if isinstance(st, ast.Expr) and isinstance(st.value, ast.Call) and norm(st.value.func).endswith('super().__set__'):
+                for c in fn_info and m.cls(fn_info.cls).mro[1:] if fn_info.cls and m.cls(fn_info.cls) else []:
+                    if '__set__' in c.methods and c.methods['__set__'].qualname not in seen:
+                        out += [(st.lineno, v, g) for _, v, g in stores(c.methods['__set__'], seen + (fn_info.qualname,))]
+                        break
+        return sorted(out, key=lambda x: x[0])
+    sts = stores(f)
+    if not sts:
+        return None, f
+    _, val, g = sts[-1]
+    pname = [a.arg for a in g.node.args.args][2] if len(g.node.args.args) > 2 else vname
+    bare = isinstance(val, ast.Name) and val.id == pname
+    return (not bare), g
+
+
+def r6(ctx):
+    """a default-argument object is created once, when the function is defined: if a constructor stores it in the instance
+    un-copied, every region built with the default shares it, and an in-place update through one region
+    (`reg.angle += 10 * u.deg`) changes all the others and every later construction — results then depend on call history."""
+    m = ctx.model
+    n = 0
+    for fi in m.all_functions():
+        if fi.path.endswith('.pyx') or not fi.cls:
+            continue
+        ci = m.cls(fi.cls)
+        if ci is None:
+            continue
+        a = fi.node.args
+        pos = a.posonlyargs + a.args
+        pairs = list(zip(pos[len(pos) - len(a.defaults):], a.defaults)) + [(k, d) for k, d in zip(a.kwonlyargs, a.kw_defaults) if d is not None]
+        for arg, d in pairs:
+            if isinstance(d, (ast.Constant, ast.Name, ast.UnaryOp, ast.Attribute)) or (isinstance(d, ast.Tuple) and not d.elts):
+                continue
+            n += 1
+            construct = f'{fi.qualname.split(":")[1]}({arg.arg}={norm(d)})'
+            escapes = []
+            for st in ast.walk(fi.node):
+                if isinstance(st, ast.Assign) and isinstance(st.value, ast.Name) and st.value.id == arg.arg:
+                    for t in st.targets:
+                        if isinstance(t, ast.Attribute) and isinstance(t.value, ast.Name) and t.value.id == 'self':
+                            copied, where = _descriptor_store_is_copy(m, ci, t.attr)
+                            if not copied:
+                                escapes.append((t.attr, st, where))
+            if escapes:
+                attr, st, where = escapes[0]
+                via = f' (through {where.qualname.split(":")[1]}, which stores the object it is given)' if where else ''
+                ctx.bad(construct, 'default-escapes',
+                        f'the default object `{norm(d)}` of parameter `{arg.arg}` is stored as self.{attr}{via}: all regions built '
+                        f'with the default share one object, so `region.{attr} += ...` (an in-place update of a Quantity) on one of '
+                        'them changes the others and the default of every later construction', fi.loc())
+            else:
+                ctx.ok(construct, 'the default object is not stored in the instance un-copied')
+    ctx.need(n >= 8, 'mutable default-argument objects', f'only {n} found')
+
+
 RULES = [
     RuleDef('R1', 'no write through a reference rooted in a parameter of a public entry', r1, 150),
     RuleDef('R2', 'no function writes module/class-level objects; registry only via decorator', r2, 15),
     RuleDef('R3', 'no shared default-argument object is written', r3, 1),
     RuleDef('R4', 'shared iterators consumed only when stateless / unreachable', r4, 2),
     RuleDef('R5', 'no order-revealing use of a set', r5, 1),
+    RuleDef('R6', 'no shared default-argument object becomes part of an instance un-copied', r6, 8),
 ]
